@@ -17,8 +17,10 @@ let () =
         print_string (String.concat " " (Stdlib.List.map string_of_bytes (dict_order ks)) ^ "\n")
       | ["B"; t; v; text; w] ->
         let ty = match t with "I" -> Type_Integer | "F" -> Type_Funcall | "D" -> Type_Identifier
-                            | "X" -> Type_Expression | _ -> Type_Other in
-        let e = { etype = ty; etext = bytes_of_string text; evalue = z_of_string v } in
+                            | "X" | "M" -> Type_Expression | _ -> Type_Other in
+        (* type M: the negation of the integer literal -v (v is given with its sign) *)
+        let e = { etype = ty; etext = bytes_of_string text; evalue = z_of_string v;
+                  eneg = (if t = "M" then Some (BinInt.Z.opp (z_of_string v)) else None) } in
         (match print_bound (fun _ -> z_of_string w) e with
          | PNumber z -> print_string ("N " ^ string_of_z z ^ "\n")
          | PText s -> print_string ("T " ^ string_of_bytes s ^ "\n"))
